@@ -176,7 +176,11 @@ func ruleLITTZ(p *Program) *RuleResult {
 	}
 	bad := 0
 	n := 0
-	for off := -14 * 3600; off <= 14*3600; off += 900 {
+	step := 900
+	if thoroughTier {
+		step = 60 // every whole-minute offset
+	}
+	for off := -14 * 3600; off <= 14*3600; off += step {
 		n++
 		r.count("offsets", 1)
 		an := newAnalyzer()
@@ -858,6 +862,19 @@ func ruleLIT4(p *Program) *RuleResult {
 	}
 	for _, v := range []int64{-129, -128, -127, -2, 2, 100, 127, 128, 129, 255, 256} {
 		add(big.NewInt(v))
+	}
+	if thoroughTier {
+		// every power of two ±1 and the whole 8-bit range (exhaustive for the 8-bit types)
+		for sh := uint(0); sh <= 64; sh++ {
+			pw := new(big.Int).Lsh(big.NewInt(1), sh)
+			for _, d := range []int64{-1, 0, 1} {
+				add(new(big.Int).Add(pw, big.NewInt(d)))
+				add(new(big.Int).Neg(new(big.Int).Add(pw, big.NewInt(d))))
+			}
+		}
+		for v := int64(-256); v <= 256; v++ {
+			add(big.NewInt(v))
+		}
 	}
 	// instantiations of narrow.ToInteger present in the program (the loader adds a synthetic file that references all of them)
 	insts := map[string]*ssa.Function{}
